@@ -1,28 +1,27 @@
 #!/usr/bin/env python3
-"""Rewrites the trial tables in DESIGN.md (between the TRIALS markers) from seeded/TRIALS.tsv."""
+"""Rewrites the trial tables in DESIGN.md (between the TRIALS markers) from seeded/TRIALS.tsv.
+Rounds are separated in the TSV by lines starting with '# ---- '."""
 import re
-rows1, rows2, cur = [], [], None
+rounds, cur = [["first round", []]], None
 for l in open('/verif/seeded/TRIALS.tsv'):
-    if l.startswith('# ---- second round'):
-        cur = rows2; continue
-    if l.startswith('#') or not l.strip():
-        if cur is None: cur = rows1
-        continue
-    a = l.rstrip('\n').split('\t')
-    (cur if cur is not None else rows1).append(a)
+    if l.startswith('# ---- '):
+        rounds.append([l[7:].strip(), []]); continue
+    if l.startswith('#') or not l.strip(): continue
+    rounds[-1][1].append(l.rstrip('\n').split('\t'))
 def table(rows):
     out = ["| change | reported by | oracle clauses that fired | history |", "|---|---|---|---|"]
     for a in rows:
         out.append("| %s | %s | %s | %s |" % (a[0], a[2], a[3], a[4]))
     return "\n".join(out)
-def stats(rows):
+body, summary = "", []
+for name, rows in rounds:
     n = len([r for r in rows if r[0][0] == 'C'])
     missed = len([r for r in rows if r[0][0] == 'C' and r[4].startswith('MISSED')])
-    return n, missed
-n1, m1 = stats(rows1); n2, m2 = stats(rows2)
-body = ("**First round** (%d changes, %d missed by the owning check at first):\n\n" % (n1, m1) + table(rows1) +
-        "\n\n**Second round** (%d changes, %d missed by the owning check at first; the agents were shown the list of ideas already used and asked for different mechanisms):\n\n" % (n2, m2) + table(rows2) + "\n")
+    summary.append((name, n, missed))
+    title = name.split('(')[0].strip().capitalize()
+    extra = name[name.index('('):] if '(' in name else ''
+    body += "**%s** - %d changes, %d missed by the owning check at first %s\n\n%s\n\n" % (title, n, missed, extra, table(rows))
 s = open('/verif/DESIGN.md').read()
-s = re.sub(r'<!-- TRIALS-BEGIN -->.*<!-- TRIALS-END -->', '<!-- TRIALS-BEGIN -->\n' + body.replace('\\', '\\\\') + '<!-- TRIALS-END -->', s, flags=re.S)
+s = re.sub(r'<!-- TRIALS-BEGIN -->.*<!-- TRIALS-END -->', lambda m: '<!-- TRIALS-BEGIN -->\n' + body + '<!-- TRIALS-END -->', s, flags=re.S)
 open('/verif/DESIGN.md', 'w').write(s)
-print("round1", n1, m1, "round2", n2, m2)
+print(summary)
